@@ -1,6 +1,6 @@
 (* C11 - a consumer ends with exactly one terminal message and nothing after it.
    This file only pins statements. *)
-From Amq Require Import Lib.Base Gen.Consts Model.Wire Model.Frames Model.OutBuf Model.Collector Model.Slots Model.Core Spec.Slots Spec.Content Proofs.Slots Proofs.OutBuf Proofs.Collector Proofs.CoreContent Proofs.CoreInv Proofs.CoreMore Model.CancelRace Proofs.CancelRace Check.Core Proofs.Examples.
+From Amq Require Import Lib.Base Gen.Consts Model.Wire Model.Frames Model.OutBuf Model.Collector Model.Slots Model.Core Spec.Slots Spec.Content Proofs.Slots Proofs.OutBuf Proofs.Collector Proofs.CoreContent Proofs.CoreInv Proofs.CoreMore Model.CancelRace Proofs.CancelRace Check.Core Proofs.Examples Model.Consumer Proofs.Consumer.
 
 (* CancelOk for tag: the caller gets the reply, the consumer's queue gets ClientCancelled appended (history = history ++ [ClientCancelled]), its sender is dropped in the same step, the tag leaves the table *)
 Theorem C11_client_cancel : forall (n : N) (tag dbg : str) (c : core) (s : slot) (q : N), steady c -> n <> 0 -> alookup n (c_slots c) = Some s -> lookup_tag tag (s_consumers s) = Some q -> q <> s_reply s -> has_room (s_reply s) (c_qs c) -> receivable q (c_qs c) -> exists c' : core, process c (FMethod n (MCancelOk tag), dbg) = (OOk, c') /\ (exists s' : slot, alookup n (c_slots c') = Some s' /\ lookup_tag tag (s_consumers s') = None) /\ (exists qu qu' : queue, alookup q (c_qs c) = Some qu /\ alookup q (c_qs c') = Some qu' /\ q_hist qu' = q_hist qu ++ [IClientCancelled] /\ q_tx qu' = false).
@@ -34,6 +34,10 @@ Proof. exact released_after_notice. Qed.
 Theorem C11_answer_first_refuted : exists sched : list actor, r_failed (rrun (rinit order_before) sched) = true.
 Proof. exact reply_first_refuted. Qed.
 
+(* the Consumer handle (Model/Consumer.v): over every non-empty sequence of cancel() calls and the final drop, exactly one Basic.Cancel is issued - by the first of them: cancelling twice sends nothing the second time, dropping a consumer cancels it, dropping a cancelled one sends nothing (c11l2 counts the Basic.Cancel frames the broker sees) *)
+Theorem C11_cancel_issued_once : forall (o : cons_op) (ops : list cons_op), cons_run false (o :: ops) = 1.
+Proof. exact cancel_issued_once. Qed.
+
 (* non-vacuity of C11_cancel_ok_effect: the server confirms the cancel of consumer "t" on
    channel 1: the tag leaves the table, the consumer's queue ends with ClientCancelled and has
    no sender left, the caller has its CancelOk, consumer "u" on channel 2 is untouched *)
@@ -54,6 +58,7 @@ Check C11_no_panic : forall (c : core) (f : dframe) (o : outcome) (c' : core), p
 Check C11_notice_before_release : forall sched : list actor, let s := rrun (rinit order_now) sched in r_failed s = false /\ (r_todo s = [] -> r_notified s = true /\ r_reply_sent s = true).
 Check C11_released_after_notice : forall sched : list actor, let s := rrun (rinit order_now) sched in r_caller s <> Blocked -> r_notified s = true.
 Check C11_answer_first_refuted : exists sched : list actor, r_failed (rrun (rinit order_before) sched) = true.
+Check C11_cancel_issued_once : forall (o : cons_op) (ops : list cons_op), cons_run false (o :: ops) = 1.
 
 Print Assumptions C11_client_cancel.
 Print Assumptions C11_server_cancel.
@@ -63,4 +68,5 @@ Print Assumptions C11_no_panic.
 Print Assumptions C11_notice_before_release.
 Print Assumptions C11_released_after_notice.
 Print Assumptions C11_answer_first_refuted.
+Print Assumptions C11_cancel_issued_once.
 Print Assumptions C11_example.
